@@ -161,6 +161,33 @@ def check(ctx):
                          rm.file, rm.line))
         for rm in [c for c in v.calls if short_path(c.path) in ("HashSet::remove", "HashSet::clear", "HashSet::retain", "HashSet::drain") and recv_name(v, c) == "visited"]:
             r2.bad(V(r2.id, v.id, "visited-shrinks:%s" % rm.name, "`visited` loses elements (%s): a finished type can be emitted again" % rm.name, rm.file, rm.line))
+        # the loop over a node's dependencies is left only when the iterator is exhausted (or by returning): a `break` skips the remaining dependencies
+        for c in rec:
+            for H in v.enclosing_loop_heads(c.bb):
+                body = {b for b in v.reach_blocks if v.dominates(H, b) and H in blocks_reachable_from(v, b, include_start=True)}
+                body.add(H)
+                for b in sorted(body):
+                    t = v.blocks[b]["term"]
+                    for (lab, succ) in v.succ_edges(b):
+                        if succ in body or succ not in v.reach_blocks:
+                            continue
+                        if t["k"] in ("return",):
+                            continue
+                        if lab in ("unwind", "cleanup"):
+                            continue
+                        # exit edge: allowed only as the `None` outcome of the iterator's next()
+                        try:
+                            o, outcome = v.cond_struct(b, lab)
+                        except Exception:
+                            o, outcome = ("?",), "?"
+                        if o[0] == "call" and o[1].name == "next":
+                            r3.ok("dependency loop is left when the iterator is exhausted")
+                            continue
+                        # does the exit lead to a return without passing the push?  (an early `return` inside the loop is an abort of this activation, not a skip)
+                        if not any(p_.bb in blocks_reachable_from(v, succ, include_start=True) for p_ in pushes):
+                            continue
+                        r3.bad(V(r3.id, v.id, "dependency-loop-left-early", "the loop over a node's dependencies can be left before the last dependency (edge bb%d -> bb%d on %s): the remaining dependencies are emitted after the node" % (b, succ, v.describe_origin(o, deep=1)[:60]),
+                                 v.blocks[b]["term"].get("span", {}).get("file"), v.blocks[b]["term"].get("span", {}).get("line")))
         # D2
         if len(pushes) != 1:
             r2.bad(V(r2.id, v.id, "push-sites:%d" % len(pushes), "expected exactly one sorted.push in topological_visit, found %d" % len(pushes)))
@@ -275,6 +302,18 @@ def check(ctx):
             r5.ok("in_degree[dep.from] is incremented")
         else:
             r5.bad(V(r5.id, k.id, "in-degree-key:%s" % ",".join(sorted(seen.get("in_degree", []))), "in_degree is indexed by %s (expected dep.from)" % sorted(seen.get("in_degree", []))))
+        # every dependency counts: the edge-building steps run for each element of the dependency list (no `continue`/filter in that loop)
+        for c in gm:
+            flt = []
+            for (bb, keep, lose) in k.filters_in_iteration(c.bb):
+                o, _ = k.cond_struct(bb, keep[0])
+                if o[0] == "call" and o[1].name in ("next",):
+                    continue
+                flt.append(k.describe_origin(o, deep=1)[:60])
+            if flt:
+                r5.bad(V(r5.id, k.id, "edge-loop-filtered:%s" % recv_name(k, c), "some dependencies are skipped while building %s (%s): an edge that is not counted cannot keep its node out of the order (self-loops, cycles)" % (recv_name(k, c), "; ".join(flt)), c.file, c.line))
+            else:
+                r5.ok("%s is updated for every dependency" % recv_name(k, c))
         # what is pushed under dep.to is dep.from
         pushed = [c for c in k.calls if short_path(c.path) == "Vec::push"]
         okp = any("Dependency.from" in k.describe_origin(k.origin(c.args[1]), deep=2) for c in pushed)
